@@ -380,7 +380,9 @@ func CheckC07(run *ev.Run) {
 		}
 	}
 	// schedules: concurrent generations through the library in ONE process, under the race detector
-	c07Race(run, st, c08Spec([]c08op{{"get", "/a/{id}", "getA"}, {"post", "/a", "postA"}, {"put", "/b/{id}", "putB"}, {"delete", "/b/{id}", "delB"}}, []string{"alpha", "beta", "gamma"}))
+	raceSpec := c08Spec([]c08op{{"get", "/a/{id}", "getA"}, {"post", "/a", "postA"}, {"put", "/b/{id}", "putB"}, {"delete", "/b/{id}", "delB"}}, []string{"alpha", "beta", "gamma"})
+	c07Race(run, st, raceSpec)
+	c07History(run, st, raceSpec)
 	run.Extra["distribution"] = st
 	run.Extra["runs_per_command"] = n
 }
@@ -454,6 +456,104 @@ func c07Race(run *ev.Run, st map[string]int, spec []byte) {
 	} else {
 		st["concurrent-equals-sequential"]++
 		st["files-compared"] = len(trees[false])
+	}
+}
+
+// c07Docstring is a template directory that overrides one DEPENDENCY template (docstring is pulled in by the model templates).
+const c07Docstring = `{{ define "docstring" }}
+  {{- if .Title }}{{ comment .Title }}{{ else }}{{ humanize .Name }}{{ end }}
+//
+// (house style of the verification harness)
+{{- end }}
+`
+
+// c07History: several generations one after the other in ONE process, some with a custom template directory: each target must
+// be byte-identical to what a fresh process writes for that generation alone (no state may leak from one call of the library
+// into the next). Uses the race-detector binary built by c07Race.
+func c07History(run *ev.Run, st map[string]int, spec []byte) {
+	bin := filepath.Join(ev.VerifDir(), "harness", "bin", "vxrace")
+	if _, err := os.Stat(bin); err != nil {
+		return
+	}
+	histories := []string{"model,model@tpl,model,server@tpl,server", "model@tpl,model,client,client@tpl"}
+	for hi, kinds := range histories {
+		mk := func() (string, string) {
+			root, err := ScratchRoot("c07h")
+			if err != nil {
+				return "", ""
+			}
+			_ = InitModule(root, "x")
+			_ = os.MkdirAll(filepath.Join(root, "tpl"), 0o755)
+			_ = os.WriteFile(filepath.Join(root, "tpl", "docstring.gotmpl"), []byte(c07Docstring), 0o644)
+			sp := filepath.Join(root, "spec.json")
+			_ = os.WriteFile(sp, spec, 0o644)
+			return root, sp
+		}
+		hash := func(root string, i int) map[string]string {
+			t := map[string]string{}
+			dir := filepath.Join(root, fmt.Sprintf("t%d", i))
+			for f, h := range Tree(dir) {
+				if strings.HasSuffix(f, ".go") {
+					b, _ := os.ReadFile(filepath.Join(dir, f))
+					// the scratch root (it appears in the go:generate line through --template-dir) is an input, not noise
+					txt := strings.ReplaceAll(strings.ReplaceAll(string(b), root, "ROOT"), fmt.Sprintf("t%d", i), "tN")
+					hs := sha256.Sum256([]byte(txt))
+					h = hex.EncodeToString(hs[:8])
+				}
+				t[f] = h
+			}
+			return t
+		}
+		root, sp := mk()
+		if root == "" {
+			return
+		}
+		res := Run(root, 600*time.Second, bin, root, sp, kinds, "false")
+		run.Traces++
+		run.Case(fmt.Sprintf("history|%d", hi))
+		if strings.Contains(res.Out, "ERR ") || strings.Contains(res.Out, "PANIC ") {
+			st["history-generation-error"]++
+		}
+		for i, k := range strings.Split(kinds, ",") {
+			// the same generation alone in a fresh process, at the same target index
+			froot, fsp := mk()
+			if froot == "" {
+				continue
+			}
+			pad := make([]string, i+1)
+			for j := range pad {
+				pad[j] = "skip"
+			}
+			pad[i] = k
+			_ = Run(froot, 600*time.Second, bin, froot, fsp, strings.Join(pad, ","), "false")
+			a, b := hash(root, i), hash(froot, i)
+			var diff []string
+			for f, h := range b {
+				if a[f] != h {
+					diff = append(diff, f)
+				}
+			}
+			for f := range a {
+				if _, ok := b[f]; !ok {
+					diff = append(diff, "+"+f)
+				}
+			}
+			sort.Strings(diff)
+			_ = os.RemoveAll(froot)
+			if len(b) == 0 {
+				st["history-reference-empty"]++
+				continue
+			}
+			if len(diff) > 0 {
+				st["HISTORY-DEPENDENT-OUTPUT"]++
+				run.Deviation("history-dependent-output", fmt.Sprintf("generation %d (%s) of the in-process history [%s] writes other files than the same generation alone in a fresh process: %v", i, k, kinds, clipList(diff, 6)),
+					map[string]interface{}{"spec": json.RawMessage(spec), "history": kinds, "generation": i, "files": diff, "template_dir/docstring.gotmpl": c07Docstring,
+						"how": "vxrace <module root> spec.json " + kinds + " false (kind@tpl = --template-dir <root>/tpl), then the generation alone in a fresh process"})
+			} else {
+				st["history-independent"]++
+			}
+		}
+		_ = os.RemoveAll(root)
 	}
 }
 
